@@ -1,6 +1,7 @@
 package q
 
 import (
+	"errors"
 	"fmt"
 
 	"github.com/elliotchance/gedcom/v39"
@@ -9,12 +10,34 @@ import (
 // Engine is the compiled query. It is able to evaluate the entire query.
 type Engine struct {
 	Statements []*Statement
+
+	// variableDepth is how many variables are being evaluated inside each
+	// other. See VariableExpr.
+	variableDepth int
 }
+
+// maxVariableDepth is far more than any sensible query needs. It exists to
+// report variables that are defined in terms of themselves.
+const maxVariableDepth = 200
 
 // Evaluate executes all of the expressions and returns the final result.
 //
 // Evaluate expects that there is at least one document provided.
-func (e *Engine) Evaluate(documents []*gedcom.Document) (interface{}, error) {
+func (e *Engine) Evaluate(documents []*gedcom.Document) (result interface{}, err error) {
+	// A query is allowed to be wrong (like asking for a property that does not
+	// exist on some of the values, or combining things that are not lists) but
+	// that must be reported as an error, never a panic.
+	defer func() {
+		if r := recover(); r != nil {
+			result = nil
+			err = fmt.Errorf("cannot evaluate query: %v", r)
+		}
+	}()
+
+	if len(documents) == 0 {
+		return nil, errors.New("cannot evaluate query: no documents")
+	}
+
 	// Before we begin we will setup the Document variables. Each document, in
 	// order will be given Document1, Document2, ...
 	for i, document := range documents {
